@@ -1,3 +1,3 @@
-(* _client.py :: ncrypt_protect_secret :: ('callarg', '_sync_get_key', 0, 4) :  l1 *)
+(* _client.py :: ncrypt_protect_secret :: shape kernel :  _sync_get_key(... 4: l1  [= -1] ...) *)
 Definition k_onl_prot_arg4  : Z :=
-  (- 1).
+  (-1).
